@@ -18,6 +18,7 @@ MapExp(e) ==
       [] e.how = "zip" -> [i \in 1 .. Len(e.a) |-> <<e.a[i], e.b[i]>>]
       [] e.how = "hadd" -> HAdd(e.a, e.b)
       [] e.how = "reduce" -> Concat(e.a, 1)
+      [] e.how = "reduce_f" -> <<FoldLeftT(CF2, e.a, Len(e.a))>>
 CtorExp(e) ==
     CASE e.how \in {"broadcast", "from_scalar"} -> [i \in 1 .. e.n |-> e.input[1]]
       [] e.how = "zero" -> [i \in 1 .. e.n |-> TZero]
